@@ -10,6 +10,11 @@
 (*                 buffer; footer and padding are stripped)                    *)
 (*   VerifyTag    -> Return the buffer | Fail (nothing is returned)            *)
 (* tamper names the part of the file that was altered after sealing.           *)
+(* fill: how full the attribute area of the header block is (the header is     *)
+(* re-serialised and padded to the block size to form the associated data).    *)
+(* An Envelope object can be asked again: after the first attempt (whatever    *)
+(* its outcome) a second decrypt() with the right key and associated data must *)
+(* behave like a first one.                                                    *)
 EXTENDS Integers, Sequences, FiniteSets, TLC
 
 Tampers == {"none", "attr-value", "attr-name", "attr-type", "keyhash", "iv", "aad", "ct-first", "ct-last", "ct-padding", "tag", "tag-size", "cryptofooter"}
@@ -18,40 +23,51 @@ LenClasses == {"empty", "one", "block-1", "block", "block+1", "big", "multi"}
 NChunks(len) == CASE len = "big" -> 2 [] len = "multi" -> 4 [] OTHER -> 1
 Payload(len) == [c \in 1..NChunks(len) |-> c]
 
-VARIABLES sealed,   \* [len, extra (number of extra attributes), aad (sealed with associated data?), tamper]
+Fills == {"slack", "exact", "one-short"}    \* within the single 4096-byte header block the reader supports
+VARIABLES sealed,   \* [len, extra (number of extra attributes), aad (sealed with associated data?), tamper, fill]
           given,    \* [key ("right"/"wrong"), aad ("same"/"none"/"other")]
           phase, out,
-          buf, k    \* private plaintext buffer (sequence of chunk numbers) and chunks processed
-vars == <<sealed, given, phase, out, buf, k>>
+          buf, k,   \* private plaintext buffer (sequence of chunk numbers) and chunks processed
+          attempt, first   \* 1 or 2; outcome of the first attempt
+vars == <<sealed, given, phase, out, buf, k, attempt, first>>
 
-Init == /\ sealed \in [len : LenClasses, extra : 0..2, aad : BOOLEAN, tamper : Tampers]
+Init == /\ sealed \in [len : LenClasses, extra : 0..2, aad : BOOLEAN, tamper : Tampers, fill : Fills]
         /\ given \in [key : {"right", "wrong"}, aad : {"same", "none", "other"}]
-        /\ phase = "start" /\ out = "nothing" /\ buf = <<>> /\ k = 0
+        /\ phase = "start" /\ out = "nothing" /\ buf = <<>> /\ k = 0 /\ attempt = 1 /\ first = "none"
 
+\* what the reader is given in the current attempt
+G == IF attempt = 1 THEN given ELSE [key |-> "right", aad |-> IF sealed.aad THEN "same" ELSE "none"]
 \* does the authenticated data the reader feeds to GCM equal what was sealed?
-AadMatches == IF sealed.aad THEN given.aad = "same" ELSE given.aad \in {"none", "same"}
+AadMatches == IF sealed.aad THEN G.aad = "same" ELSE G.aad \in {"none", "same"}
 HeaderIntact == sealed.tamper \notin {"attr-value", "attr-name", "attr-type", "iv"}
 BodyIntact   == sealed.tamper \notin {"ct-first", "ct-last", "ct-padding", "cryptofooter", "tag", "tag-size"}
 
-ParseHeader == phase = "start" /\ phase' = "parsed" /\ UNCHANGED <<sealed, given, out, buf, k>>
+ParseHeader == phase = "start" /\ phase' = "parsed" /\ UNCHANGED <<sealed, given, out, buf, k, attempt, first>>
 KeyHashGate == /\ phase = "parsed"
-               /\ phase' = IF given.key = "right" /\ sealed.tamper # "keyhash" THEN "keyok" ELSE "failed"
-               /\ UNCHANGED <<sealed, given, out, buf, k>>
+               /\ phase' = IF G.key = "right" /\ sealed.tamper # "keyhash" THEN "keyok" ELSE "failed"
+               /\ UNCHANGED <<sealed, given, out, buf, k, attempt, first>>
 DecryptChunk == /\ phase = "keyok" /\ k < NChunks(sealed.len)
                 /\ k' = k + 1 /\ buf' = Append(buf, k + 1)
-                /\ UNCHANGED <<sealed, given, phase, out>>
+                /\ UNCHANGED <<sealed, given, phase, out, attempt, first>>
 DecryptVerify == /\ phase = "keyok" /\ k = NChunks(sealed.len)
                  /\ IF HeaderIntact /\ BodyIntact /\ AadMatches /\ sealed.tamper # "aad"
                     THEN phase' = "returned" /\ out' = buf
                     ELSE phase' = "failed" /\ out' = "nothing"
-                 /\ UNCHANGED <<sealed, given, buf, k>>
-Next == ParseHeader \/ KeyHashGate \/ DecryptChunk \/ DecryptVerify
+                 /\ UNCHANGED <<sealed, given, buf, k, attempt, first>>
+\* the same object is asked again, now with the right key and the associated data it was sealed with
+Again == /\ attempt = 1 /\ phase \in {"returned", "failed"}
+         /\ attempt' = 2 /\ first' = phase
+         /\ phase' = "parsed" /\ out' = "nothing" /\ buf' = <<>> /\ k' = 0
+         /\ UNCHANGED <<sealed, given>>
+Next == ParseHeader \/ KeyHashGate \/ DecryptChunk \/ DecryptVerify \/ Again
 NoNext == FALSE /\ UNCHANGED vars
 Spec == Init /\ [][Next]_vars
 
 Done == phase \in {"returned", "failed"}
-RoundTrip == (Done /\ sealed.tamper = "none" /\ given.key = "right" /\ AadMatches) => (phase = "returned" /\ out = Payload(sealed.len))
+RoundTrip == (Done /\ sealed.tamper = "none" /\ G.key = "right" /\ AadMatches) => (phase = "returned" /\ out = Payload(sealed.len))
 NoPlaintextOnFailure == phase = "failed" => out = "nothing"
 ReturnsOnlyThePayload == phase = "returned" => out = Payload(sealed.len)
-AuthFailsClosed == (Done /\ (sealed.tamper # "none" \/ given.key = "wrong" \/ ~AadMatches)) => phase = "failed"
+AuthFailsClosed == (Done /\ (sealed.tamper # "none" \/ G.key = "wrong" \/ ~AadMatches)) => phase = "failed"
+\* asking again is like asking for the first time: the second outcome depends on the file only
+SecondLikeFirst == (attempt = 2 /\ Done) => (phase = "returned" <=> sealed.tamper = "none")
 =============================================================================
